@@ -356,3 +356,52 @@ class DropNaMinvalid(Contract):
         yield "metadata-kept", dict(result.attrs) == env["attrs0"]
         arr = env["arr"]
         yield "operand-untouched", same(arr.values, data) and all(list(arr.axes[e].values) == list(labels[e]) for e in range(rank))
+
+
+
+class SortAxisKey(Contract):
+    """BOUNDED STAND-IN ONLY (never counted as proved).  sort_axis(axis, key=...) for a key FUNCTION and for a dict used as key:
+    the labels come out in ascending order of key(label) (ties in their original order), every slice with its label, other
+    axes and metadata kept, operand untouched.  The sorting is Python-level (sorted(range(n), key=...)), outside the symbolic
+    engine's reach; evaluated on the real code over arrays of rank 1-2 with distinct labels of length 0-3.  [C17]"""
+    target = "dimarray.core.align:sort_axis"
+    props = ("C17",)
+    native_only = True
+
+    def cases(self, tier):
+        for rank in (1, 2):
+            for key in ("negate", "dict", "abs-distance"):
+                yield {"name": "r%d-key_%s" % (rank, key), "rank": rank, "key": key}
+
+    def setup(self, S, case):
+        return _setup(S, case["rank"])
+
+    def _key(self, env):
+        import numpy as np
+        L = [float(v) for v in np.asarray(env["labels"][0])]
+        k = env["case"]["key"]
+        if k == "negate":
+            return (lambda v: -v), (lambda v: -v)
+        if k == "abs-distance":
+            return (lambda v: abs(v - 1.0)), (lambda v: abs(v - 1.0))
+        table = {v: (7 * i + 3) % 5 for i, v in enumerate(sorted(L))}
+        return table, table.__getitem__
+
+    def call(self, fn, env):
+        key, _ = self._key(env)
+        return env["arr"].sort_axis(axis="x0", key=key)
+
+    def post(self, S, case, env, result):
+        import numpy as np
+        rank = case["rank"]
+        _, kf = self._key(env)
+        L = [float(v) for v in np.asarray(env["labels"][0])]
+        order = sorted(range(len(L)), key=lambda i: kf(L[i]))
+        data = np.asarray(env["data"], dtype=float)
+        same = lambda x, y: np.asarray(x).shape == np.asarray(y).shape and bool(np.all((np.asarray(x, dtype=float) == np.asarray(y, dtype=float)) | (np.isnan(np.asarray(x, dtype=float)) & np.isnan(np.asarray(y, dtype=float)))))
+        yield "labels-in-ascending-key-order", [float(v) for v in result.axes[0].values] == [L[i] for i in order]
+        yield "each-slice-moves-with-its-label", same(result.values, data[order])
+        if rank == 2:
+            yield "other-axis-unchanged", list(result.axes[1].values) == list(np.asarray(env["labels"][1]))
+        yield "metadata-kept", dict(result.attrs) == env["attrs0"]
+        yield "operand-untouched", same(env["arr"].values, data) and [float(v) for v in env["arr"].axes[0].values] == L
